@@ -184,6 +184,14 @@ func (c *Ctx) SpecFail(kind, desc, sig, detail string, replay interface{}) {
 	c.Dist("spec-fail")
 }
 
+// Mismatch records a disagreement between the model's and the implementation's output found outside RunCases.
+func (c *Ctx) Mismatch(desc, req, model, impl string, replay interface{}) {
+	if len(c.Res.Mismatches) < maxFailures {
+		c.Res.Mismatches = append(c.Res.Mismatches, Failure{Kind: "mismatch", Desc: desc, Req: req, Model: model, Impl: impl, Replay: replay})
+	}
+	c.Dist("mismatch")
+}
+
 type propFn func(*Ctx)
 
 var props = map[string]propFn{}
